@@ -389,6 +389,14 @@ htp_status_t htp_connp_REQ_CONNECT_WAIT_RESPONSE(htp_connp_t *connp) {
         return HTP_DATA_OTHER;
     }
 
+    // The response line alone is not enough: when the response headers arrive in a
+    // later data chunk, going ahead now would switch both streams to tunnel mode
+    // with those headers never parsed. Wait until they have been read.
+    if ((connp->out_tx == connp->in_tx) && (connp->out_state == htp_connp_RES_HEADERS)
+            && (connp->in_tx->response_progress == HTP_RESPONSE_HEADERS)) {
+        return HTP_DATA_OTHER;
+    }
+
     // A 2xx response means a tunnel was established. Anything
     // else means we continue to follow the HTTP stream.
     if ((connp->in_tx->response_status_number >= 200) && (connp->in_tx->response_status_number <= 299)) {
